@@ -7,6 +7,7 @@ warnings.simplefilter('ignore', FutureWarning)
 
 from .. import encode, gen_regex, model, runner, scripted_random as SR, sexp
 from ..common import d42  # noqa: F401
+from d42 import validate
 from d42.generation import Random, RegexGenerator
 
 MODULE = "D42.Props.C09Match"
@@ -178,6 +179,7 @@ def run(ctx):
     ctx.cov["corr_disagreements"] = bad
     match_correspondence(ctx, [p for p, u in pats if u is None])
     cap_family(ctx)
+    schema_path(ctx, [p for p, u in pats if u is None and anchors_only_at_ends(p)])
     for p, u in pats[:6]:
         ctx.sample({"pattern": p, "unsupported": u})
 
@@ -213,6 +215,35 @@ def cap_family(ctx):
                             break
     finally:
         _random.setstate(st)
+
+
+def schema_path(ctx, patterns):
+    """`schema.str.regex(p)` generates strings its own validation accepts: the same patterns through fake()'s visitor (not the
+    RegexGenerator alone), under every draw policy — patterns that can match the empty string included"""
+    from d42 import schema
+    nullable = [r"^(ab)?$", r"^a*$", r"^\d{0,2}$", r"^(|q)$", r"^(?P<sign>[+-])?\d*$", r"(x|)(y|)", r"^(?:ab|)*$", r"^\w?$"]
+    for p in nullable + patterns[: ctx.n(40, 300)]:
+        try:
+            s = schema.str.regex(p)
+        except Exception:  # noqa: BLE001
+            continue
+        for pol in ("lo", "hi", "alt", "alt2", "rnd", "small"):
+            (k, v), log = SR.generate(s, SR.make_policy(pol, ctx.rnd))
+            ctx.count("schema_path_cases")
+            if k != "ok":
+                continue
+            try:
+                bad = validate(s, v).has_errors()
+                full = len(v) > 3000 or fullmatch(p, v)
+            except _Timeout:
+                continue
+            except Exception as e:  # noqa: BLE001
+                ctx.violation("validate raised on a generated string", pattern=p, generated=v, exception=repr(e))
+                continue
+            if bad or not full:
+                ctx.violation("schema.str.regex(p) generated a string its own validation rejects" if bad else
+                              "generated string does not match the entire pattern", pattern=p, generated=v[:200], policy=pol, via="fake(schema.str.regex(p))")
+                break
 
 
 def _plain_anchors(items, sre):
